@@ -8,6 +8,7 @@ import (
 	"sort"
 	"strings"
 	"sync"
+	"sync/atomic"
 
 	wire "github.com/jeroenrinzema/psql-wire"
 
@@ -53,6 +54,20 @@ func c12parse(ctx context.Context, query string) (wire.PreparedStatements, error
 	})), nil
 }
 
+// c12closeConn is registered as CloseConn/TerminateConn hook: whatever it is used for, it is a
+// user callback and must not run for CancelRequest connections.
+var c12hookCalls atomic.Int64
+
+func c12closeConn(ctx context.Context) error {
+	c12hookCalls.Add(1)
+	if ctx != nil {
+		if conn := hs.ConnOf(ctx); conn != nil {
+			conn.CB("connhook", nil)
+		}
+	}
+	return nil
+}
+
 type c12config struct {
 	Params  map[string]string
 	Version string
@@ -94,6 +109,7 @@ func (cfg c12config) start() *hs.Env {
 	if cfg.Auth {
 		opts = append(opts, wire.SessionAuthStrategy(wire.ClearTextPassword(c12validator)))
 	}
+	opts = append(opts, wire.CloseConn(c12closeConn), wire.TerminateConn(c12closeConn))
 	return hs.Start(c12parse, opts...)
 }
 
@@ -353,12 +369,18 @@ func (ch c12) cancel(c *core.Ctx, cfg c12config, stage string) {
 	cs := map[string]any{"cancel_stage": stage}
 	var env *hs.Env
 	if stage == "after-tls" {
-		env = hs.Start(c12parse, wire.TLSConfig(hs.ServerTLS()))
+		env = hs.Start(c12parse, wire.TLSConfig(hs.ServerTLS()), wire.CloseConn(c12closeConn), wire.TerminateConn(c12closeConn))
 	} else {
 		env = cfg.start()
 	}
 	defer env.Stop()
 	conn := env.Dial(nil)
+	hooksBefore := c12hookCalls.Load()
+	defer func() {
+		if n := c12hookCalls.Load() - hooksBefore; n != 0 {
+			c.Violate("cancel", "user callback on a CancelRequest connection ("+stage+")", fmt.Sprintf("the connection hook ran %d time(s)", n), cs)
+		}
+	}()
 	c.Count("cancel_requests", 1)
 	c.Eval("cancel "+stage, true)
 	allowed := ""
